@@ -317,6 +317,10 @@ def check_main(prop, tier, seed):
             if rc == 0:
                 rc = 2
         cov = ev["coverage"]
+        if rc == 0 and not cov.get("evaluations"):
+            # nothing was evaluated at all (every history was unusable): that is no verdict, not a pass
+            print(f"HARNESS-ERROR: {prop}: no evaluation completed within the budget", file=sys.stderr)
+            rc = 2
         print(f"{prop} {tier}: evaluations={cov['evaluations']} distinct_nontrivial={cov['distinct_nontrivial']} "
               f"violations={len(violations)} known={len(seen)} wall={wall:.1f}s workers={nworkers} seed={seed}")
         return rc
